@@ -64,6 +64,8 @@ def to_world_action(world, bind, la):
         return [{"a": "AppSend", "c": c, "data": ("m:%s:%d" % (c, k)).encode().hex()}]
     if a == "AppClose":
         return [{"a": "AppClose", "c": c}]
+    if a == "ArmClose":
+        return [{"a": "ArmClose", "c": c, "kind": x}]
     if a == "ConnOpen":
         if world._attempt_of(cl) is None:
             pre.append({"a": "Retry", "c": c})
@@ -128,6 +130,10 @@ def project_spec(st, bind=None):
     return out
 
 
+DOC_ERRS = {"KeyFormatError", "OnlyOneCodeError", "MustChooseNameplateFirstError", "AlreadyChoseNameplateError",
+            "AlreadyChoseWordsError", "NoKeyError", "AlreadyInputNameplateError", "WormholeClosed"}
+
+
 def _verdict_name(v):
     if isinstance(v, str):
         return v
@@ -163,7 +169,8 @@ def project_real(world, bind):
             "nextTx": b._next_tx_phase, "nextRx": b._next_rx_phase,
             "sendq": [p for p, _ in b._S._queue], "orderq": [p for _, p, _ in b._O._queue],
             "events": ev,
-            "errs": any(n == c for n, _, _ in world.internal),
+            "errs": any(n == c for n, _, _ in world.internal) or any(
+                type(e).__name__ not in DOC_ERRS for _, e in cl.api_errors),
             "up": conn is not None, "closing": bool(conn and conn.closing),
             "c2s": [[f["type"], f.get("phase", "") if f["type"] == "add" else ""] for f in (conn.c2s if conn else [])
                     if f["type"] != "bind" or True],
